@@ -10,7 +10,7 @@
   range0    : every  range(n)  written  range(0, n)
   tempret   : every  return <expression>  (not a bare name / constant) written  _ret = <expression>; return _ret
   chain     : every chained comparison  a < b < c  written  a < b and b < c  (b a name, constant or subscript of names: no repeated side effect)
-usage: neutral_sweep.py [roundtrip|rename|params|flipcmp|augassign|ifelse|range0|tempret|chain ...]"""
+usage: neutral_sweep.py [mode ...]   (all modes: see nucsverif/neutral.py)"""
 import ast, os, shutil, subprocess, sys, tempfile, builtins
 sys.path.insert(0, os.path.dirname(os.path.dirname(os.path.abspath(__file__))))
 from nucsverif.neutral import transform, MODES
